@@ -484,23 +484,60 @@ Proof.
   - apply andb_true_iff in Hex. destruct Hex as [Hs He].
     match goal with H : lexvar (w_expand_el _) _ |- _ => apply (r_expand_lex _ _ _ Hs He) in H; rename H into Hr end.
     rewrite Hx, Hr. reflexivity.
-  - exact Hx.
+  - destruct y as [n1 a1 k1| |]; try discriminate.
+    assert (En : n1 = cn "comp").
+    { rewrite r_comp_eq in Hx. destruct (name_eqb n1 (cn "comp")) eqn:E; [|discriminate]. now apply name_eqb_eq in E. }
+    subst n1. cbn [el_named]. change (name_eqb (cn "comp") (cn "expand")) with false. cbv iota. exact Hx.
 Qed.
 
-Lemma r_dprop_lex c t' : valid_cr c = true -> lexvar (w_dprop c) t' -> r_dprop t' = Some c.
+(** calendar-data without comp *)
+Lemma r_caldata_nc_lex e t' :
+  match e with Some (s, e') => utc_ok s && utc_ok e' | None => true end = true ->
+  lexvar (w_caldata_nc e) t' -> r_caldata t' = Some (whole_cr e).
 Proof.
-  intros Hv Hl. apply lexvar_elem_inv in Hl. destruct Hl as (a' & k' & -> & Ha & Hk).
+  intros Hex Hl. apply lexvar_elem_inv in Hl. destruct Hl as (a' & k' & -> & Ha & Hk).
+  change (negb (pcdata (cn "calendar-data"))) with true in Hk.
+  unfold r_caldata. rewrite name_eqb_refl.
+  assert (Hk0 : forallb is_elem (opt_list w_expand_el e) = true) by (now destruct e).
+  destruct (kids_var_econtent _ _ Hk Hk0) as [-> Hf]. cbn [andb].
+  destruct e as [[s e']|]; cbn [opt_list] in Hf; inv_f2; [|reflexivity].
+  apply andb_true_iff in Hex. destruct Hex as [Hs He].
+  match goal with H : lexvar (w_expand_el _) _ |- _ =>
+    pose proof H as Hl; apply (r_expand_lex _ _ _ Hs He) in H; rename H into Hr;
+    apply lexvar_elem_inv in Hl; destruct Hl as (a2 & k2 & -> & _) end.
+  cbn [el_named]. rewrite name_eqb_refl, Hr. reflexivity.
+Qed.
+
+(** DAV:prop around any calendar-data element whose variants read as [c] *)
+Definition caldata_reads (X : xtree) (c : comp_request) : Prop :=
+  (exists a0 k0, X = Elem (cn "calendar-data") a0 k0)
+  /\ forall t', lexvar X t' -> r_caldata t' = Some c.
+
+Lemma r_dprop_x_lex X c t' : caldata_reads X c -> lexvar (w_dprop_x X) t' -> r_dprop t' = Some c.
+Proof.
+  intros ((a0 & k0 & ->) & HX) Hl. apply lexvar_elem_inv in Hl. destruct Hl as (a' & k' & -> & Ha & Hk).
   change (negb (pcdata (dn "prop"))) with true in Hk.
   unfold r_dprop. rewrite name_eqb_refl.
   destruct (kids_var_econtent _ _ Hk eq_refl) as [-> Hf]. cbn [andb]. inv_f2.
   match goal with H : lexvar (Elem (dn "getetag") _ _) _ |- _ =>
     apply lexvar_elem_inv in H; destruct H as (a1 & k1 & -> & _) end.
-  match goal with H : lexvar (w_caldata c) _ |- _ =>
-    pose proof H as Hl; apply (r_caldata_lex _ _ Hv) in H; rename H into Hr;
+  match goal with H : lexvar (Elem (cn "calendar-data") a0 k0) _ |- _ =>
+    pose proof H as Hl; apply HX in H; rename H into Hr;
     apply lexvar_elem_inv in Hl; destruct Hl as (a2 & k2 & -> & _) end.
   cbn [filter is_caldata].
   change (name_eqb (dn "getetag") (cn "calendar-data")) with false. rewrite name_eqb_refl. exact Hr.
 Qed.
+
+Lemma caldata_reads_comp c : valid_cr c = true -> caldata_reads (w_caldata c) c.
+Proof. intros Hv. split; [unfold w_caldata; eauto |]. intros t' Hl. now apply r_caldata_lex. Qed.
+
+Lemma caldata_reads_nc e :
+  match e with Some (s, e') => utc_ok s && utc_ok e' | None => true end = true ->
+  caldata_reads (w_caldata_nc e) (whole_cr e).
+Proof. intros He. split; [unfold w_caldata_nc; eauto |]. intros t' Hl. now apply r_caldata_nc_lex. Qed.
+
+Lemma r_dprop_lex c t' : valid_cr c = true -> lexvar (w_dprop c) t' -> r_dprop t' = Some c.
+Proof. intros Hv Hl. exact (r_dprop_x_lex _ c t' (caldata_reads_comp c Hv) Hl). Qed.
 
 Lemma r_filter_lex f t' :
   valid_cf f = true -> lexvar (Elem (cn "filter") [] [w_cf f]) t' -> r_filter t' = Some f.
@@ -539,26 +576,24 @@ Proof.
   cbn [map_opt] in IH. now rewrite IH.
 Qed.
 
-(** The RFC reader decodes every lexical variant of the RFC document of a
-    valid request to that request. *)
-Theorem rfc_read_lex r doc :
-  valid href_fmt href_parse r = true -> lexvar (rfc_write href_fmt r) doc ->
+Theorem rfc_read_lex_x r X doc :
+  caldata_reads X (req_cr r) -> valid_rest href_fmt href_parse r = true ->
+  lexvar (rfc_write_x href_fmt X r) doc ->
   rfc_read href_parse doc = Some r.
 Proof.
-  intros Hv Hl. destruct r as [q|m]; cbn [rfc_write valid] in *.
-  - unfold rfc_write_query in Hl. apply andb_true_iff in Hv. destruct Hv as [Hcr Hcf].
+  intros HX Hv Hl. destruct r as [q|m]; cbn [rfc_write_x valid_rest req_cr] in *.
+  - rename Hv into Hcf.
     apply lexvar_elem_inv in Hl. destruct Hl as (a' & k' & -> & Ha & Hk).
     change (negb (pcdata (cn "calendar-query"))) with true in Hk.
     unfold rfc_read. destruct (kids_var_econtent _ _ Hk eq_refl) as [-> Hf]. cbn [negb].
     rewrite name_eqb_refl. inv_f2.
-    match goal with H : lexvar (w_dprop _) _ |- _ => rewrite (r_dprop_lex _ _ Hcr H) end.
+    match goal with H : lexvar (w_dprop_x _) _ |- _ => rewrite (r_dprop_x_lex _ _ _ HX H) end.
     match goal with H : lexvar (Elem (cn "filter") _ _) _ |- _ => rewrite (r_filter_lex _ _ Hcf H) end.
     now destruct q.
-  - unfold rfc_write_multiget in Hl.
-    apply andb_true_iff in Hv. destruct Hv as [Hv Hps]. apply andb_true_iff in Hv. destruct Hv as [Hcr Hne].
+  - apply andb_true_iff in Hv. destruct Hv as [Hne Hps].
     apply lexvar_elem_inv in Hl. destruct Hl as (a' & k' & -> & Ha & Hk).
     change (negb (pcdata (cn "calendar-multiget"))) with true in Hk.
-    assert (Hk0 : forallb is_elem (w_dprop (mg_cr m) :: map (w_href href_fmt) (mg_paths m)) = true).
+    assert (Hk0 : forallb is_elem (w_dprop_x X :: map (w_href href_fmt) (mg_paths m)) = true).
     { cbn. now apply forallb_map_elem. }
     unfold rfc_read. destruct (kids_var_econtent _ _ Hk Hk0) as [-> Hf]. cbn [negb].
     change (name_eqb (cn "calendar-multiget") (cn "calendar-query")) with false.
@@ -568,7 +603,29 @@ Proof.
     destruct m as [paths cr]. cbn [mg_paths mg_cr] in *.
     destruct paths as [|p0 paths]; [discriminate |]. cbn [map] in Hl.
     inversion Hl as [|x2 y2 l2 l2' Hx2 Hl2]; subst.
-    rewrite (r_dprop_lex _ _ Hcr Hx), Hm. reflexivity.
+    rewrite (r_dprop_x_lex _ _ _ HX Hx), Hm. reflexivity.
+Qed.
+
+(** The RFC reader decodes every lexical variant of the RFC document of a
+    valid request to that request. *)
+Theorem rfc_read_lex r doc :
+  valid href_fmt href_parse r = true -> lexvar (rfc_write href_fmt r) doc ->
+  rfc_read href_parse doc = Some r.
+Proof.
+  intros Hv Hl. rewrite rfc_write_as_x in Hl. destruct (valid_split _ _ _ Hv) as [Hcr Hr].
+  exact (rfc_read_lex_x r _ doc (caldata_reads_comp _ Hcr) Hr Hl).
+Qed.
+
+Theorem rfc_read_lex_nc r doc :
+  valid href_fmt href_parse r = true -> is_whole (req_cr r) = true ->
+  lexvar (rfc_write_nc href_fmt r) doc ->
+  rfc_read href_parse doc = Some r.
+Proof.
+  intros Hv Hw Hl. unfold rfc_write_nc in Hl. destruct (valid_split _ _ _ Hv) as [Hcr Hr].
+  apply (rfc_read_lex_x r (w_caldata_nc (cr_expand (req_cr r))) doc); try assumption.
+  rewrite (whole_eq _ Hw) at 2. apply caldata_reads_nc.
+  unfold valid_cr in Hcr. apply andb_true_iff in Hcr. destruct Hcr as [_ He].
+  destruct (cr_expand (req_cr r)) as [[s e]|]; assumption.
 Qed.
 
 End Top.
